@@ -426,3 +426,61 @@ func H14e_twin() {
 		vAssert(false, "H14e_twin.reach: reachable")
 	}
 }
+
+// H14f: a completed delivery is not repeated - also not for a transaction WITH payload that is submitted twice
+// concurrently. Two goroutines Add the same root transaction and its payload; two persistent subscribers (one per
+// event type, as the real subscribers register) complete at their first call. Under every schedule within the
+// preemption bound: each subscriber is called exactly once, no job record is left behind once completion was
+// recorded (a record re-created by the loser of the race would be delivered again by Notifier.Run at the next
+// start), and after a restart Run() calls nobody.
+func H14f() {
+	hRetryLog = nil
+	kv := newHKV()
+	ctx := context.Background()
+	s := hNewState(kv, 2, func(Transaction) bool { return true })
+	txRec, plRec := &hRecorder{}, &hRecorder{}
+	_, err := s.Notifier("txsub", txRec.receive, WithPersistency(kv), WithSelectionFilter(func(e Event) bool { return e.Type == TransactionEventType }))
+	vAssert(err == nil, "H14f.notifier: cannot register")
+	_, err = s.Notifier("plsub", plRec.receive, WithPersistency(kv), WithSelectionFilter(func(e Event) bool { return e.Type == PayloadEventType }))
+	vAssert(err == nil, "H14f.notifier: cannot register")
+	payload := []byte{0x50, 1}
+	root := hNewTx(vRef(1), 0, hash.SHA256Sum(payload), nil)
+	var errA, errB error
+	vGo(func() { errA = s.Add(ctx, root, payload) })
+	vGo(func() { errB = s.Add(ctx, root, payload) })
+	vWait()
+	vCover("done")
+	vAssert(errA == nil && errB == nil, "H14f.both_ok: concurrent Add of a valid transaction with payload failed")
+	vAssert(len(txRec.events) == 1 && len(plRec.events) == 1, "H14f.delivered_once: a subscriber was not called exactly once for a transaction submitted twice")
+	for _, shelf := range []string{"_txsub_jobs", "_plsub_jobs"} {
+		left := 0
+		_ = kv.ReadShelf(ctx, shelf, func(r stoabs.Reader) error {
+			return r.Iterate(func(k stoabs.Key, v []byte) error {
+				left++
+				return nil
+			}, stoabs.BytesKey{})
+		})
+		vAssert(left == 0, "H14f.no_job_after_completion: a job record exists after the subscriber's completion was recorded")
+	}
+	// restart: nothing is delivered again
+	s2 := hNewState(kv, 2, func(Transaction) bool { return true })
+	s2.loadState(ctx)
+	n1, err := s2.Notifier("txsub", txRec.receive, WithPersistency(kv), WithSelectionFilter(func(e Event) bool { return e.Type == TransactionEventType }))
+	vAssert(err == nil && n1.Run() == nil, "H14f.run_ok: Notifier.Run failed after restart")
+	n2, err := s2.Notifier("plsub", plRec.receive, WithPersistency(kv), WithSelectionFilter(func(e Event) bool { return e.Type == PayloadEventType }))
+	vAssert(err == nil && n2.Run() == nil, "H14f.run_ok: Notifier.Run failed after restart")
+	vAssert(len(txRec.events) == 1 && len(plRec.events) == 1, "H14f.not_called_again_after_restart: a completed event was delivered again after a restart")
+}
+
+func H14f_twin() {
+	kv := newHKV()
+	ctx := context.Background()
+	s := hNewState(kv, 2, func(Transaction) bool { return true })
+	plRec := &hRecorder{}
+	_, _ = s.Notifier("plsub", plRec.receive, WithPersistency(kv), WithSelectionFilter(func(e Event) bool { return e.Type == PayloadEventType }))
+	payload := []byte{0x50, 1}
+	root := hNewTx(vRef(1), 0, hash.SHA256Sum(payload), nil)
+	if s.Add(ctx, root, payload) == nil && len(plRec.events) == 1 {
+		vAssert(false, "H14f_twin.reach: reachable")
+	}
+}
